@@ -11,7 +11,7 @@ for prop in sys.argv[1:]:
     parts = re.split(r"== \S+ (?:\([^)]*\) )?(demo WITHOUT change|demo WITH change|suite WITH change)\n", t)
     sec = {parts[i]: parts[i + 1].split("== checks")[0] for i in range(1, len(parts) - 1, 2)}
     ok_without = "test result: ok" in sec.get("demo WITHOUT change", "") and "FAILED" not in sec.get("demo WITHOUT change", "")
-    fails_with = "FAILED" in sec.get("demo WITH change", "") or "error: test failed" in sec.get("demo WITH change", "")
+    fails_with = any(k in sec.get("demo WITH change", "") for k in ("FAILED", "error: test failed", "panicked at"))
     suite = sec.get("suite WITH change", "")
     failed = [l for l in suite.splitlines() if "FAILED" in l or l.strip().startswith("error")]
     n_ok = sum(int(m.group(1)) for m in re.finditer(r"^\s*(\d+) test result: ok", suite, re.M))
